@@ -153,6 +153,18 @@ def pratt_corpus(tier):
     return out
 
 
+def oc_triples_pairwise(nf, nl, nc):
+    triples = [(i, j, c) for i in range(nf) for j in range(nl) for c in range(nc)]
+    need = {("fl", i, j) for i in range(nf) for j in range(nl)} | {("fc", i, c) for i in range(nf) for c in range(nc)} | \
+           {("lc", j, c) for j in range(nl) for c in range(nc)}
+    chosen = []
+    while need:
+        best = max(triples, key=lambda t: (("fl", t[0], t[1]) in need) + (("fc", t[0], t[2]) in need) + (("lc", t[1], t[2]) in need))
+        chosen.append(best)
+        need -= {("fl", best[0], best[1]), ("fc", best[0], best[2]), ("lc", best[1], best[2])}
+    return chosen
+
+
 def oc_family(tier):
     """Ordered-choice micro-grammars enumerated by shape: first alternative (consumes, may fail late) x
     last alternative (incl. nullable ones) x context (sibling rule after, tokens around, tokens before
@@ -167,6 +179,10 @@ def oc_family(tier):
             ("elided", "s: r+ D;\nr^: %s;\n"), ("create", "s: P <1 r 1>y Q;\nr: %s;\n"),
             ("prepost", "s: r Q;\nr: P (%s) Q;\n"), ("presib", "s: r t2;\nr: P (%s);\nt2: A D;\n")]
     triples = [(i, j, c) for i in range(len(firsts)) for j in range(len(lasts)) for c in range(len(ctxs))]
+    if tier != "quick":
+        # thorough: every third triple of the full product (405 grammars) on top of the pairwise cover
+        cover = oc_triples_pairwise(len(firsts), len(lasts), len(ctxs))
+        triples = sorted(set(cover) | set(triples[(seed() % 3)::3]))
     if tier == "quick":
         # greedy pairwise covering array over the three factors
         need = {("fl", i, j) for i in range(len(firsts)) for j in range(len(lasts))} | \
@@ -364,10 +380,14 @@ def judge(prop, tier):
         files = files + oc_family(tier)
     if prop in ("C01", "C02", "C03", "C05", "C16"):
         files = files + nodeop_family(tier)
+    if prop in ("C01", "C03", "C04", "C06", "C16"):
+        import p1
+        files = files + [(g["name"], G.render(dict(g, tokens=g["tokens"] + [{"name": "W", "sym": ""}], skip=["W"])))
+                         for g in p1.parts_family()]
     built = build_all(files)
-    cap = 1600 if tier == "quick" else 30000
+    cap = 1600 if tier == "quick" else 4000
     if prop == "C07":
-        cap = 4000 if tier == "quick" else 60000
+        cap = 4000 if tier == "quick" else 20000
     with_skips = prop != "C07"
     pairs = prop == "C16"
     sel = [b for b in built if b.ok and SELECT[prop](b.feat)]
